@@ -7,15 +7,16 @@
 package zzverif
 
 import (
-	"reflect"
-	"unsafe"
+	"encoding/binary"
 	"encoding/json"
 	"fmt"
 	"os"
 	"path/filepath"
+	"reflect"
 	"sort"
 	"strconv"
 	"strings"
+	"unsafe"
 )
 
 type inputRec struct {
@@ -206,7 +207,16 @@ func Field(ptr any, name string) any {
 	return reflect.NewAt(f.Type(), unsafe.Pointer(f.UnsafeAddr())).Elem().Interface()
 }
 
+// Put64 / Get64 store and load a big-endian 64-bit integer (one term, no shifting, under the executor).
+func Put64(b []byte, off int, x int64) { binary.BigEndian.PutUint64(b[off:], uint64(x)) }
+func Get64(b []byte, off int) int64    { return int64(binary.BigEndian.Uint64(b[off:])) }
+
 func PermuteMaps(on bool) {}
+
+// DependsOn reports whether some byte of b is (syntactically) a function of a
+// symbolic variable whose name starts with prefix ("$now" = the clock).
+// Natively it cannot be observed and is false.
+func DependsOn(b []byte, prefix string) bool { return false }
 
 // Unsupported ends the current symbolic path as "not encodable" (never a pass).
 func Unsupported(msg string) { panic("zzverif: unsupported natively: " + msg) }
